@@ -417,33 +417,40 @@ struct ARun {
       check(r, 0, 0);
     } else if (k == "ovf") {  // ovf which kind r x : size-overflowing products
       size_t r = rl(norm_rec(arg(op, 2, 1)));
-      int which = (int)uarg(op, 0, 4), kind = (int)uarg(op, 1, 3);
+      int which = (int)uarg(op, 0, 4), kind = (int)uarg(op, 1, 4);
+      const size_t r0 = r;  // the array's ordinary record size (used for the model comparison afterwards)
       size_t x = (size_t)uarg(op, 3, 1000);
       size_t n;
       if (kind == 0)
         n = SIZE_MAX / r + 1 + x;  // least n with n*r > SIZE_MAX (wraps to x for r == 1: then no overflow, skipped)
       else if (kind == 1)
         n = (SIZE_MAX - sz) / r + 1;  // n*r may fit, size + n*r does not
-      else
+      else if (kind == 2 || typed)
         n = SIZE_MAX - x;
+      else {
+        // few enormous records: the true product exceeds SIZE_MAX but the wrapped product is small and >= n
+        n = 2 + x % 8;
+        r = SIZE_MAX / n + 1 + (x / 8) % 5;
+        o.cls("overflow-few-enormous-records");
+      }
       u128 prod = (u128)n * r;
       static const char *WN[] = {"append", "resize", "shrink", "init"};
       opname = fmt("%s(%zu x %zu) [overflow]", WN[which], n, r);
-      recs.insert(r);
+      if (r == r0) recs.insert(r);
       if (which == 2) {  // shrink: "if there are fewer than nrec records, all records present will be deleted"
         if (prod <= sz) return;
         ea_shrink(ty, ea, n, r);
         model_resize(0);
         o.cls("overflow-shrink");
         note_alloc_change(a0, alloc(), true);
-        check(r, 0, 0);
+        check(r0, 0, 0);
         return;
       }
       u128 total = which == 0 ? prod + sz : prod;
       if (total <= SIZE_MAX) return;  // not an overflowing request (would be an allocation-failure test: C14)
       int rc;
       if (which == 0) {
-        char *src = (char *)malloc(1);
+        char *src = (char *)malloc(1);  // one byte: an accepted overflowing append would also read past it
         src[0] = 'x';
         rc = ea_append(ty, ea, src, n, r, &err);
         free(src);
@@ -469,7 +476,7 @@ struct ARun {
         o.fail("ea-overflow-modified", ctx() + fmt(": failed request changed the allocation (%zu -> %zu bytes)", a0, alloc()));
         return;
       }
-      check(r, 0, 0);  // "on error, the array will be unmodified"
+      check(r0, 0, 0);  // "on error, the array will be unmodified"
     }
   }
 
@@ -564,7 +571,7 @@ static rc::Gen<Op> gen_aop(int tier, bool typed) {
     case 10:
       return Op("iter");
     case 11:
-      return Op("ovf", {*range<int64_t>(0, 3), *range<int64_t>(0, 2), r, *range<int64_t>(0, 999)});
+      return Op("ovf", {*range<int64_t>(0, 3), *range<int64_t>(0, 3), r, *range<int64_t>(0, 999)});
     case 12:
       return Op("init", {*range<int64_t>(0, 40), r, *range<int64_t>(0, 2), *range<int64_t>(0, 1), *gen_rec()});
     default:
